@@ -93,8 +93,14 @@ type FuncContract struct {
 	Config       []string
 	Covers       string
 	NoLoops      bool
+	Sets         []GhostSet
 	CallsOnly    []string
 	HasCallsOnly bool
+}
+
+type GhostSet struct {
+	Ghost string
+	Expr  *Expr
 }
 
 type LoopContract struct {
@@ -240,6 +246,16 @@ func (fc *FuncContract) addClause(word, rest string, ln int) error {
 				fc.Config = append(fc.Config, l)
 			}
 		}
+	case "sets":
+		i := strings.Index(rest, "=")
+		if i < 0 {
+			return fmt.Errorf("sets @ghost = expr")
+		}
+		e, err := parseExpr(rest[i+1:])
+		if err != nil {
+			return err
+		}
+		fc.Sets = append(fc.Sets, GhostSet{Ghost: strings.TrimSpace(rest[:i]), Expr: e})
 	case "noloops":
 		fc.NoLoops = true
 	case "callsonly":
